@@ -636,22 +636,26 @@ def label_strings(sc: Scope, inh: Set[str] = frozenset()) -> None:
     """mark the properties that a string statement follows while `currentAttr` still points at them
     (for classifying a docstring difference; the verdict itself comes from the comparison with CPython)"""
     cur: List[Optional[str]] = [None]
-    bound_here: Set[str] = set()
+    own: Dict[str, str] = {}       # name -> "attr" | "nonattr" as documented so far in this scope
 
     def walk(stmts: list) -> None:
         for s in stmts:
             k = s[0]
-            if k in ("def", "class"):
-                bound_here.add(s[1])
             if k == "def":
                 isprop = sc.in_class and any(d in ("p", "P") or d == ("o", "log_property") for d in s[3])
+                if any(isinstance(d, tuple) and d[0] in ("set", "del") for d in s[3]) and sc.in_class and not isprop:
+                    cur[0] = None           # documented under the name `x.setter`
+                    continue
                 cur[0] = s[1] if isprop else None
+                own[s[1]] = "attr" if isprop else "nonattr"
             elif k == "class":
                 cur[0] = None
+                own[s[1]] = "nonattr"
             elif k in ("asg", "ann"):
-                if not (sc.in_class and s[1] in inh and s[1] not in bound_here):
-                    cur[0] = None          # else: _maybeAttribute refuses the name and currentAttr stays
-                    bound_here.add(s[1])
+                refused = own.get(s[1]) == "nonattr" or (sc.in_class and s[1] not in own and s[1] in inh)
+                if not refused:             # else the assignment is ignored and currentAttr stays where it was
+                    cur[0] = None
+                    own.setdefault(s[1], "attr")
             elif k == "str":
                 if cur[0] is not None:
                     sc.label(cur[0], "string-after-property")
@@ -772,8 +776,8 @@ def ann_parts(ann: str) -> Tuple[str, Optional[List[str]]]:
 
 
 def oracle_scope(ctx: Ctx, sc: Scope, pd: Dict[str, Dict[str, Any]], py: Dict[str, Dict[str, Any]], in_subset: bool,
-                 files: Dict[str, str], inh: Set[str] = frozenset()) -> None:
-    inp = {"scope": sc.qname, "files": files}
+                 files: Dict[str, str], inh: Set[str] = frozenset(), request: str = "") -> None:
+    inp = {"scope": sc.qname, "files": files, "request": request}
 
     def excused(name: str) -> Optional[str]:
         """mismatch on a name the generator put outside the theorem's subset for a reason that is not a recorded finding"""
@@ -1019,8 +1023,12 @@ def run_batch(ctx: Ctx, batch, pyres) -> None:
         try:
             system = build_pydoctor(files, g.modules)
         except AssertionError as e:
-            if any("double-wrap" in w for sc in g.scopes for w in sc.labels.values()):
-                ctx.count("out-of-subset:double-wrap-crash")
+            # `assert target_obj.kind is DocumentableKind.METHOD` in _handleOldSchoolMethodDecoration: the model has this
+            # outcome; the crash is excused (and counted) only when the model predicts it for a namespace of the package
+            rq = ["builder pd %s%d - %s %s" % ("C" if sc.in_class else "M", 1 if sc.in_block else 0, env_token(g.env),
+                                               " ".join(stmt_tokens(sc.stmts))) for sc in g.scopes]
+            if ctx.model_ok and "AssertionError" in ctx.driver.run(rq):
+                ctx.count("out-of-subset:oldstyle-assert-crash(model agrees)")
                 continue
             ctx.fail("analysis-crash:AssertionError", {"files": files}, "AssertionError: %s" % e)
             continue
@@ -1048,7 +1056,7 @@ def run_batch(ctx: Ctx, batch, pyres) -> None:
             impl_py.append(pyl)
             sub_reqs.append("builder subset " + head + toks)
             pay.append({"scope": sc.qname, "files": files, "request": head + toks})
-            meta.append((sc, pdinfo, pyinfo, files, set(inh)))
+            meta.append((sc, pdinfo, pyinfo, files, set(inh), head + toks))
             nt = nontrivial(sc.stmts)
             ctx.case(head + toks, nt, {"scope": sc.qname, "source": files[[k for k in files if k != "pk/_h.py"][0]][:400],
                                        "pydoctor": pdl[:300], "cpython": pyl[:300]} if nt and len(ctx.samples) < 3 else None)
@@ -1063,16 +1071,16 @@ def run_batch(ctx: Ctx, batch, pyres) -> None:
     ctx.compare("builder-scope", reqs_pd, impl_pd, pay)
     ctx.compare("pysem-scope", reqs_py, impl_py, pay)
     verdicts = ctx.driver.run_parallel(sub_reqs) if ctx.model_ok else ["out"] * len(sub_reqs)
-    for v, (sc, pdinfo, pyinfo, files, inh) in zip(verdicts, meta):
+    for v, (sc, pdinfo, pyinfo, files, inh, rq) in zip(verdicts, meta):
         ctx.count("subset:" + v)
         if v == "in" and any(x - {"shadows-inherited"} for x in sc.labels.values()):
             # the generator's labels and the Lean predicate must agree on what is outside the subset
             ctx.disagree("subset-labels", {"scope": sc.qname, "labels": {k: sorted(x) for k, x in sc.labels.items()}, "files": files}, "in", "labelled")
         before = len(ctx.failures), sum(f["count"] for f in ctx.failures)
-        oracle_scope(ctx, sc, pdinfo, pyinfo, v == "in", files, inh)
+        oracle_scope(ctx, sc, pdinfo, pyinfo, v == "in", files, inh, rq)
         after = len(ctx.failures), sum(f["count"] for f in ctx.failures)
         if v == "in" and before != after:
-            ctx.fail("theorem-region-mismatch", {"scope": sc.qname, "files": files},
+            ctx.fail("theorem-region-mismatch", {"scope": sc.qname, "files": files, "request": rq},
                      "a namespace inside Subset.inSubset on which pydoctor and CPython differ")
 
 
@@ -1107,4 +1115,16 @@ def replay(ctx: Ctx, obj) -> int:
         print("scope", q)
         print("  pydoctor:", {n: (i["cls"], i["kind"], i["doc"], i["ann"]) for n, i in pd_dump(o)[1].items()} if o else None)
         print("  cpython :", (py.get("details") or {}).get(q), py.get("error"))
+    rq = inp.get("request")
+    if rq:
+        from ..core import dec
+
+        def show(line: str) -> str:
+            return " ".join("|".join(dec(f) if f.startswith("u:") else f for f in part.split("|")) for part in line.split(" "))
+        outs = ctx.driver.run(["builder pd " + rq, "builder py " + rq, "builder subset " + rq])
+        print("model Builder.scope :", show(outs[0]))
+        print("model PySem.scope   :", show(outs[1]))
+        print("Subset.inSubset     :", outs[2])
+        if scope and system.allobjects.get(scope) is not None:
+            print("impl pydoctor       :", show(pd_dump(system.allobjects[scope])[0]))
     return 0
